@@ -22,9 +22,15 @@ func exprStr(e ast.Expr) string {
 // (*types.Func).FullName: "pkg/path.F", "(*pkg/path.T).M", "(pkg/path.T).M",
 // or "builtin.name"; "" for dynamic calls and conversions.
 func calleeName(info *types.Info, call *ast.CallExpr) string {
+	if synthLen[call] {
+		return "builtin.len"
+	}
 	obj := typeutil.Callee(info, call)
 	switch o := obj.(type) {
 	case *types.Func:
+		if n, ok := renamedFunc[o.Origin()]; ok {
+			return n // a renamed anchor answers to its frozen name
+		}
 		return o.FullName()
 	case *types.Builtin:
 		return "builtin." + o.Name()
@@ -682,4 +688,75 @@ func byteAsRuneSites(info *types.Info, body ast.Node, asciiKnown func(arg ast.Ex
 		return true
 	})
 	return out
+}
+
+// privateOwner: when fd is an unexported function or method of package p that
+// is only ever called (never used as a value) and all of whose calls come from
+// one other function - directly or through further such helpers - returns
+// that function's declaration; nil otherwise.
+func privateOwner(p *packagesPkg, fd *ast.FuncDecl) *ast.FuncDecl {
+	info := p.TypesInfo
+	cur := fd
+	for depth := 0; depth < 4; depth++ {
+		if cur.Name.IsExported() {
+			break
+		}
+		obj := info.Defs[cur.Name]
+		var callers []*ast.FuncDecl
+		asValue := false
+		for _, f := range p.Syntax {
+			for _, d := range f.Decls {
+				cd, ok := d.(*ast.FuncDecl)
+				if !ok || cd.Body == nil {
+					continue
+				}
+				inCall := map[*ast.Ident]bool{}
+				calls := false
+				ast.Inspect(cd.Body, func(n ast.Node) bool {
+					if ce, ok := n.(*ast.CallExpr); ok {
+						if f := calleeFunc(info, ce); f != nil && f.Origin() == obj {
+							calls = true
+							switch fn := ast.Unparen(ce.Fun).(type) {
+							case *ast.Ident:
+								inCall[fn] = true
+							case *ast.SelectorExpr:
+								inCall[fn.Sel] = true
+							}
+						}
+					}
+					return true
+				})
+				ast.Inspect(cd.Body, func(n ast.Node) bool {
+					if id, ok := n.(*ast.Ident); ok && info.Uses[id] == obj && !inCall[id] {
+						asValue = true
+					}
+					return true
+				})
+				if calls {
+					callers = append(callers, cd)
+				}
+			}
+		}
+		if asValue || len(callers) != 1 || callers[0] == cur {
+			if cur == fd {
+				return nil
+			}
+			return cur
+		}
+		cur = callers[0]
+	}
+	if cur == fd {
+		return nil
+	}
+	return cur
+}
+
+// isAnchorCall: the call's static callee is the (possibly renamed) anchor function.
+func isAnchorCall(c *Ctx, info *types.Info, ce *ast.CallExpr, pkgPath, name string) bool {
+	f := calleeFunc(info, ce)
+	if f == nil {
+		return false
+	}
+	fi := c.Func(pkgPath, name)
+	return fi != nil && f.Origin() == fi.Obj
 }
